@@ -5,6 +5,7 @@
 #include <string.h>
 #include <sys/wait.h>
 #include <unistd.h>
+#include <fcntl.h>
 int main(int argc, char **argv) {
   /* $STUB_CHILD: run that shell command as a child (the stub stays its parent process, so that the
    * child sees e.g. "git log -p" as the command that called it) and exit with its status. */
@@ -29,6 +30,25 @@ int main(int argc, char **argv) {
       fprintf(f, "\n");
       fclose(f);
     }
+  }
+  /* $STUB_STREAM: pass $STUB_OUT (a FIFO) through as it arrives, read(2) by read(2), unbuffered */
+  if (getenv("STUB_STREAM") && getenv("STUB_OUT")) {
+    int fd = open(getenv("STUB_OUT"), O_RDONLY);
+    if (fd >= 0) {
+      char buf[65536];
+      ssize_t n;
+      while ((n = read(fd, buf, sizeof buf)) > 0) {
+        ssize_t off = 0;
+        while (off < n) {
+          ssize_t w = write(1, buf + off, n - off);
+          if (w <= 0) return 1;
+          off += w;
+        }
+      }
+      close(fd);
+    }
+    const char *e2 = getenv("STUB_EXIT");
+    return e2 ? atoi(e2) : 0;
   }
   const char *out = getenv("STUB_OUT");
   if (out) {
